@@ -8,12 +8,15 @@ import (
 	"io"
 	"os"
 	"path/filepath"
+	"runtime"
+	"strconv"
 	"sort"
 	"strings"
 	"sync"
 	"time"
 
 	"github.com/nuetzliches/hookaido/internal/queue"
+	"github.com/nuetzliches/hookaido/internal/verifhook"
 )
 
 // Clock is the fake clock shared by harness and store.
@@ -280,6 +283,12 @@ func (r *Runner) Run(name string, cfg Cfg, ops []Op) error {
 	}
 	book := &leaseBook{epochs: map[string][]string{}}
 	for _, op := range ops {
+		if op.Op == "FilterRace" {
+			if err := r.filterRace(store, dump, clk, book, op); err != nil {
+				return fmt.Errorf("%s: FilterRace: %w", name, err)
+			}
+			continue
+		}
 		ev, err := execOp(store, clk, book, op)
 		if err != nil {
 			return fmt.Errorf("%s: op %s: %w", name, op.Op, err)
@@ -534,3 +543,120 @@ func (b *leaseBook) Resolve(l LeaseRef) string { return b.resolve(l) }
 
 // ExecOp executes one store-level operation and returns its event (without post-state).
 func ExecOp(store queue.Store, clk *Clock, book *LeaseBook, op Op) (Event, error) { return execOp(store, clk, book, op) }
+
+
+// filterRaceMu serialises FilterRace executions: the gate is global to the process.
+var filterRaceMu sync.Mutex
+
+// filterRace runs a by-filter mutation that is paused at the hook between its select and its update
+// (sqlite.filter.selected) while the inner operations run, and emits FilterSelect, the inner events, FilterApply.
+// Stores that perform the mutation atomically (memory) emit the plain MutateFilter event followed by the inner events.
+func (r *Runner) filterRace(store queue.Store, dump Dumper, clk *Clock, book *leaseBook, op Op) error {
+	emitOp := func(o Op) error {
+		ev, err := execOp(store, clk, book, o)
+		if err != nil {
+			return err
+		}
+		return r.EmitWithPost(ev, dump, clk)
+	}
+	plain := Op{Op: "MutateFilter", MOp: op.MOp, F: op.F}
+	if _, isSQL := store.(*queue.SQLiteStore); !isSQL {
+		if err := emitOp(plain); err != nil {
+			return err
+		}
+		for _, in := range op.Inner {
+			if err := emitOp(in); err != nil {
+				return err
+			}
+		}
+		return nil
+	}
+	filterRaceMu.Lock()
+	defer filterRaceMu.Unlock()
+	arrived := make(chan struct{}, 1)
+	release := make(chan struct{})
+	armed := true
+	var gmu sync.Mutex
+	var target int64 // goroutine that performs OUR by-filter call (other shards run in the same process)
+	verifhook.SetGate(func(label string) {
+		if label != "sqlite.filter.selected" {
+			return
+		}
+		gmu.Lock()
+		a := armed && target != 0 && curGID() == target
+		if a {
+			armed = false
+		}
+		gmu.Unlock()
+		if !a {
+			return
+		}
+		arrived <- struct{}{}
+		<-release
+	})
+	defer verifhook.SetGate(nil)
+	type res struct {
+		ev  Event
+		err error
+	}
+	done := make(chan res, 1)
+	go func() {
+		gmu.Lock()
+		target = curGID()
+		gmu.Unlock()
+		ev, err := execOp(store, clk, book, plain)
+		done <- res{ev, err}
+	}()
+	select {
+	case <-arrived:
+	case d := <-done:
+		// nothing was selected: the call returned before the second step - a plain atomic MutateFilter
+		if d.err != nil {
+			return d.err
+		}
+		if err := r.EmitWithPost(d.ev, dump, clk); err != nil {
+			return err
+		}
+		for _, in := range op.Inner {
+			if err := emitOp(in); err != nil {
+				return err
+			}
+		}
+		return nil
+	case <-time.After(20 * time.Second):
+		return fmt.Errorf("by-filter call neither reached the hook nor returned")
+	}
+	if err := r.EmitWithPost(Event{"ev": "FilterSelect", "a": map[string]any{"op": op.MOp, "f": filterArg(op.F)}}, dump, clk); err != nil {
+		close(release)
+		return err
+	}
+	for _, in := range op.Inner {
+		if err := emitOp(in); err != nil {
+			close(release)
+			return err
+		}
+	}
+	close(release)
+	d := <-done
+	if d.err != nil {
+		return d.err
+	}
+	d.ev["ev"] = "FilterApply"
+	return r.EmitWithPost(d.ev, dump, clk)
+}
+
+
+// curGID returns the id of the calling goroutine (parsed from its stack header; harness use only).
+func curGID() int64 {
+	var buf [64]byte
+	n := runtime.Stack(buf[:], false)
+	f := strings.Fields(string(buf[:n]))
+	if len(f) < 2 {
+		return -1
+	}
+	id, err := strconv.ParseInt(f[1], 10, 64)
+	if err != nil {
+		return -1
+	}
+	return id
+}
